@@ -46,3 +46,36 @@ func TestReplayBSI32MinMaxAllZero(t *testing.T) {
 		t.Errorf("MinMax(MAX) = %d, want 0", g)
 	}
 }
+
+// BSI-F10 (cont.): MinMax with in-range data: a minimum whose planes are all set compares "equal" to the initial MaxInt64; negative
+// values are mis-ordered.
+func TestReplayBSI32MinMaxMore(t *testing.T) {
+	b := NewDefaultBSI()
+	b.SetValue(0, 127) // 7 planes, every plane set
+	if g := b.MinMax(1, MIN, nil); g != 127 {
+		t.Errorf("index {0:127}: MinMax(MIN) = %d, want 127", g)
+	}
+	c := NewDefaultBSI()
+	c.SetValue(0, 1)
+	c.SetValue(5, -1)
+	if g := c.MinMax(1, MIN, nil); g != -1 {
+		t.Errorf("index {0:1, 5:-1}: MinMax(MIN) = %d, want -1", g)
+	}
+	d := NewDefaultBSI()
+	d.SetValue(0, -1)
+	d.SetValue(5, 0)
+	if g := d.MinMax(2, MAX, nil); g != 0 {
+		t.Errorf("index {0:-1, 5:0}: MinMax(2, MAX) = %d, want 0", g)
+	}
+}
+
+// BSI-F9 (cont.): RANGE with a positive interval reports a negative stored value.
+func TestReplayBSI32RangeReportsNegative(t *testing.T) {
+	b := NewDefaultBSI()
+	b.SetValue(0, 127)
+	b.SetValue(5, -1)
+	got := b.CompareValue(1, RANGE, 5, 127, nil).ToArray()
+	if len(got) != 1 || got[0] != 0 {
+		t.Errorf("CompareValue(RANGE, 5, 127) = %v, want [0] (column 5 holds -1)", got)
+	}
+}
